@@ -5,6 +5,7 @@ import NutsModel.C17.Fold
 import NutsModel.C17.Kid
 import NutsModel.C17.LdBytes
 import NutsModel.C17.Jwk
+import NutsModel.C17.JarSet
 import NutsModel.Facts.C17
 open Lean Nuts.Drv Nuts.C17 Nuts
 
@@ -91,6 +92,19 @@ def step (st : Unit) (j : Json) : Unit × List String :=
   else
   if jStr j "op" == "ambig" then
     (st, [match Fold.ambVal modelFold (toJVal (jObj j "doc")) with | some _ => "ambiguous" | none => "clean"])
+  else
+  if jStr j "c" == "jarset" then
+    -- jar.validate with the client's key set as a list: a key's identity is its thumbprint (harness data); lookup + comparison are the model's
+    let info := parseJws (jObj j "info")
+    let v := jObj j "v"
+    let stp := jStr v "signertp"
+    let E : Env := { fits := fun _ _ => jBool v "fits", resolve := fun _ => if jBool v "keyfound" then some stp else none, embeddedKey := fun _ => none,
+                     verifies := fun _ _ _ => jBool v "verified", verifiesSplit := fun _ _ _ => false }
+    let J : JarSet.SetEnv := { clientIdMatches := jBool v "clientid", configOK := jBool v "configok",
+                               keys := (jArr v "set").map (fun e => { kid := jStr e "kid", tp := if jStr e "tp" == "" then none else some (jStr e "tp") }),
+                               tpOf := fun k => if k == "" then none else some k }
+    let r := JarSet.validateExit Facts.C17.supportedAlgs E J info
+    (st, [match r.2 with | .accept _ => "accept" | .reject => "reject:" ++ r.1.show])
   else
   match stepBytes j with
   | some r => (st, r)
